@@ -131,7 +131,7 @@ theorem isV4Mapped_iff (a : Bytes) (ha : a.length = 16) : isV4Mapped a = true â†
     rw [beDec_append, hq]
   have hlt : beDec (a.drop 12) < 2 ^ 32 := by have := beDec_lt (a.drop 12); rw [hq] at this; omega
   have hnet : num6 v4net = 0xffff * 2 ^ 32 := by decide
-  unfold isV4Mapped inNetwork6Text
+  unfold isV4Mapped inNetwork6Text inNetwork6TextWith
   rw [parseCidr6_mapped]
   simp only [bind, Except.bind, inNetwork6, inNetworkN]
   rw [if_neg (by omega), hnum, hnet]
